@@ -287,3 +287,60 @@ Print Assumptions c03_wf_lat_syntactic.
 Print Assumptions c03_wf_lat_exact.
 Print Assumptions c03_planner_example.
 Print Assumptions c03_planner_wf_lat_needed.
+
+(* ---- lattice relations under ascent_par!: the reliability of the key-index lookup as an explicit, modelled assumption
+   (Engine/ParLatLookup.v; seed C03_par_key_index_try_get_spurious_miss).  The parallel head update looks the key up in new's key
+   index twice: (1) outside the key mutex, (5) again under the mutex before it pushes a row.  Engine/ParLat.v (the machine of
+   c02_lattice_* / the parallel engines above) takes both lookups as atomic and RELIABLE (DashMap::get waits for a writer).
+   ParLatLookup.lrun is that machine with events that may carry a miss flag; u1 / u5 say which of the two lookups honours it
+   (answers "absent" although the key is in the map, as a try_get that gives up on a write-locked shard does). *)
+From AV Require Engine.ParLat.
+From AV Require Engine.ParLatProofs.
+From AV Require Engine.ParLatLookup.
+
+(* no flagged event: exactly the machine of Engine/ParLat.v *)
+Theorem c03_par_lookup_reliable_is_parlat : forall (K V : Type) keqb jm mx kfirst setidx dl tt u1 u5 sched (st : @ParLat.pstate K V),
+  ParLatLookup.lrun keqb jm mx kfirst setidx dl tt u1 u5 st (map (fun j => (j, false)) sched)
+  = ParLat.run_sched keqb jm mx kfirst setidx dl tt st sched.
+Proof. intros K V keqb jm mx kfirst setidx dl tt u1 u5 sched st. exact (ParLatLookup.lrun_reliable keqb jm mx kfirst setidx dl tt u1 u5 sched st). Qed.
+
+(* only the FIRST lookup unreliable (u5 = false), any events: one row per key in every reachable state, and after every finishing
+   event list every row holds the least upper bound of the key's initial value and contributions (ParLatProofs.lubrows: one row
+   per key, a key has a row iff it has a value, the row holds THE least upper bound) *)
+Theorem c03_par_first_lookup_miss_one_row_per_key :
+  forall (K V : Type) keqb, (forall a b : K, keqb a b = true <-> a = b) ->
+  forall (le : V -> V -> Prop) jm, lat_laws le jm ->
+  forall mx kfirst setidx dl tt u1 R0 nk0 ot0 ch0 work, ParLatProofs.init_ok keqb le dl tt R0 nk0 ot0 ch0 work ->
+  forall evs, NoDup (map fst (ParLat.lrows (ParLatLookup.lrun keqb jm mx kfirst setidx dl tt u1 false (ParLat.par_init R0 nk0 ot0 ch0 work) evs))).
+Proof. exact (@ParLatLookup.lookup_first_miss_one_row_per_key). Qed.
+
+Theorem c03_par_first_lookup_miss_values_lub :
+  forall (K V : Type) keqb, (forall a b : K, keqb a b = true <-> a = b) ->
+  forall (le : V -> V -> Prop) jm, lat_laws le jm ->
+  forall mx kfirst setidx dl tt u1 R0 nk0 ot0 ch0 work, ParLatProofs.init_ok keqb le dl tt R0 nk0 ot0 ch0 work ->
+  forall evs, ParLat.finished (ParLatLookup.lrun keqb jm mx kfirst setidx dl tt u1 false (ParLat.par_init R0 nk0 ot0 ch0 work) evs) = true ->
+  ParLatProofs.lubrows le R0 work (ParLat.lrows (ParLatLookup.lrun keqb jm mx kfirst setidx dl tt u1 false (ParLat.par_init R0 nk0 ot0 ch0 work) evs)).
+Proof. exact (@ParLatLookup.lookup_first_miss_values_lub). Qed.
+
+(* the RE-CHECK unreliable: "one row per key carrying the least upper bound" is refuted.  Closed witness: bit-mask sets on Z
+   (join = bitwise or), input row (7,0), worker 0 derives (5,1) then (5,4), worker 1 derives (5,2) and both its lookups miss:
+   the run finishes with the rows (5,1) and (5,6) for key 5 - two rows, neither holds the least upper bound 7; the key index
+   answers the newer row, both row numbers are in new's other indices (dependent rules read a stale value next to the current one) *)
+Theorem c03_par_recheck_miss_one_row_per_key_refuted : forall kfirst,
+  let s := ParLatLookup.lzrun true true kfirst [(7, 0)]%Z [[(5, 1); (5, 4)]; [(5, 2)]]%Z ParLatLookup.miss_events in
+  ParLat.finished s = true /\ ParLat.lrows s = [(7, 0); (5, 1); (5, 6)]%Z /\ ~ NoDup (map fst (ParLat.lrows s)) /\
+  ParLat.klook Z.eqb 5%Z (ParLat.lnkey s) = Some 2%nat /\ ParLat.lother s = [2%nat; 1%nat] /\ ParLat.lheld s = [].
+Proof. exact ParLatLookup.lookup_recheck_miss_refuted. Qed.
+
+(* the same events with a reliable re-check: one row (5,7) *)
+Example c03_par_first_lookup_miss_example : forall kfirst,
+  let s := ParLatLookup.lzrun true false kfirst [(7, 0)]%Z [[(5, 1); (5, 4)]; [(5, 2)]]%Z
+             (ParLatLookup.miss_events ++ repeat (0%nat, false) 4 ++ repeat (1%nat, false) 4) in
+  ParLat.finished s = true /\ ParLat.lrows s = [(7, 0); (5, 7)]%Z /\ ParLat.lheld s = [].
+Proof. exact ParLatLookup.ex_first_miss_only. Qed.
+
+Print Assumptions c03_par_lookup_reliable_is_parlat.
+Print Assumptions c03_par_first_lookup_miss_one_row_per_key.
+Print Assumptions c03_par_first_lookup_miss_values_lub.
+Print Assumptions c03_par_recheck_miss_one_row_per_key_refuted.
+Print Assumptions c03_par_first_lookup_miss_example.
